@@ -254,19 +254,37 @@ var jwsPayloads = [][]byte{
 // disturb sends requests that the library refuses (or serves) on paths that ordinary signing never takes, right before
 // a signature is made or verified: what they leave behind must not reach the next call.
 func disturb(k *Key) {
-	defer func() { _ = recover() }()
+	for _, d := range disturbances(k) {
+		d()
+	}
+}
+
+// disturbances returns the single requests of disturb, each of which is to be followed by a regular use.
+func disturbances(k *Key) (out []func()) {
+	guard := func(f func()) func() {
+		return func() {
+			defer func() { _ = recover() }()
+			f()
+		}
+	}
 
 	for _, payload := range [][]byte{[]byte("a.b"), []byte("."), {}} {
 		for _, h := range []jws.Headers{{"alg": k.Alg, "b64": false, "crit": []interface{}{"b64"}}, {"alg": k.Alg, "b64": false}, {"alg": k.Alg, "b64": "no"},
 			{"b64": false}, {"alg": 7}} {
-			_, _ = jwsutil.NewJWS(h, nil, payload, librarySigner(k))
-
+			h, payload := h, payload
 			hb, _ := json.Marshal(h)
-			_, _ = jwsutil.VerifyJWS(b64(hb)+"."+b64(payload)+"."+b64([]byte("sig")), k.JWK)
-			_, _ = jwsutil.VerifyJWS(b64(hb)+".."+b64([]byte("sig")), k.JWK, jwsutil.WithJWSDetachedPayload(payload))
-			_, _ = jwsutil.ParseJWS(b64(hb) + "." + string(payload) + "." + b64([]byte("sig")))
+
+			out = append(out,
+				guard(func() { _, _ = jwsutil.NewJWS(h, nil, payload, librarySigner(k)) }),
+				guard(func() { _, _ = jwsutil.VerifyJWS(b64(hb)+"."+b64(payload)+"."+b64([]byte("sig")), k.JWK) }),
+				guard(func() {
+					_, _ = jwsutil.VerifyJWS(b64(hb)+".."+b64([]byte("sig")), k.JWK, jwsutil.WithJWSDetachedPayload(payload))
+				}),
+				guard(func() { _, _ = jwsutil.ParseJWS(b64(hb) + "." + string(payload) + "." + b64([]byte("sig"))) }))
 		}
 	}
+
+	return out
 }
 
 var shapedCache sync.Map
@@ -424,6 +442,39 @@ func jwsReplay(args []string) {
 
 				if pi%2 == 0 {
 					disturb(key)
+				}
+
+				// each refused request on its own, directly followed by a signature and by a verification, on one
+				// processor (what a pool hands out next is then what was put back last)
+				if pi == 0 && c.Tamper == "none" {
+					prev := runtime.GOMAXPROCS(1)
+
+					for di, d := range disturbances(key) {
+						d()
+
+						s1, e1 := signutil.SignPayload(payload, librarySigner(key))
+
+						d()
+
+						var e2 error
+
+						if e1 == nil {
+							var back *jwsutil.JSONWebSignature
+
+							if back, e2 = jwsutil.VerifyJWS(s1, key.JWK); e2 == nil && !bytes.Equal(back.Payload, payload) {
+								e2 = fmt.Errorf("another payload comes back")
+							}
+						}
+
+						if e1 != nil || e2 != nil {
+							runtime.GOMAXPROCS(prev)
+							fail("matching-key-does-not-verify", fmt.Sprintf("right after refused request %d: sign: %v, verify: %v", di, e1, e2), "verifies", nil, s1)
+
+							return
+						}
+					}
+
+					runtime.GOMAXPROCS(prev)
 				}
 
 				// positive control: the matching key verifies and returns the payload unchanged
